@@ -51,8 +51,10 @@ pub fn tokens(cell: &str) -> Vec<Rat> {
 fn all_cells(t: &TableSnap) -> Vec<&String> { t.rows.iter().flat_map(|r| r.iter()).chain(t.footer.iter()).collect() }
 
 fn check(case: &LedgerCase, obs: &mut Obs) -> Verdict {
-    let files = case.files();
-    let csv = &files[0].1;
+    // a third of the histories are handed over as two or three files (same row order)
+    let files = case.files_maybe_split();
+    let csv_joined: String = if files.len() == 1 { files[0].1.clone() } else { files.iter().map(|(n, t)| format!("--- {n}\n{t}")).collect() };
+    let csv = &csv_joined;
     let opts = case.run_opts();
     let full = match run_render(&files, &opts, true, true) { Ok(r) => r, Err(RunErr::Panic(p)) => return classify_panic(&p, csv), Err(RunErr::Run(e)) => return Verdict::Skip(format!("run-error:{}", e.split_whitespace().take(3).collect::<Vec<_>>().join("_"))), Err(RunErr::BadInit(e)) => return Verdict::Fail(e) };
     let dflt = match run_render(&files, &opts, false, true) { Ok(r) => r, Err(RunErr::Panic(p)) => return classify_panic(&p, csv), Err(_) => return Verdict::Fail(format!("default-precision run fails where the full-precision run succeeds\n{csv}")) };
